@@ -159,7 +159,15 @@ func (b *backendConfigSessionHandler) handleFinishedUpdate(p *config.FinishedUpd
 	}
 
 	smc.Reader().SetState(state.Play)
+	// Stop reading from the backend until the handler for what it sends next is in place. The
+	// callback below runs on the client's goroutine (first configuration round): it acknowledges
+	// the backend's FinishedUpdate and only then installs the transition (or play) handler. A
+	// backend that answers the acknowledgement with JoinGame at once was read by this
+	// connection's read loop in between: this handler forwarded JoinGame like any other
+	// packet, nobody ever set the player's connected server and the request hung.
+	smc.SetAutoReading(false)
 	configHandler.handleBackendFinishUpdate(b.serverConn, p).ThenAccept(func(any) {
+		defer smc.SetAutoReading(true)
 		err := smc.WritePacket(&config.FinishedUpdate{})
 		if err != nil {
 			b.log.Error(err, "error writing finished update packet")
